@@ -16,6 +16,7 @@ pub mod c06;
 mod c07;
 mod derive_checks;
 mod c12;
+mod c13;
 mod c14;
 mod c15;
 mod c16;
@@ -108,24 +109,43 @@ fn main() {
         }
     }
     let r = Report::new(&id, tier);
-    match id.as_str() {
-        "C01" => c01::run(&r),
-        "C02" => c02::run(&r),
-        "C03" => c03::run(&r),
-        "C04" => c04::run(&r),
-        "C05" => c05::run(&r),
-        "C06" => c06::run(&r),
-        "C07" => c07::run(&r),
-        "C11" => c11::run(&r),
-        "C12" => c12::run(&r),
-        "C14" => c14::run(&r),
-        "C15" => c15::run(&r),
-        "C16" => c16::run(&r),
-        "C19" => c19::run(&r),
+    let run = std::panic::catch_unwind(std::panic::AssertUnwindSafe(|| dispatch(&id, &r)));
+    if run.is_err() {
+        // A panic outside `guard`: the harness tripped over the subject (an encoder that failed or
+        // panicked, an unwrap on a result the unchanged tree always produces). Reported as a verdict
+        // with the current case; the unchanged tree never gets here.
+        let dir = std::env::var("VERIF_DIR").unwrap_or_else(|_| "/verif".to_string());
+        let path = format!("{}/replays/{}-panic.json", dir, id);
+        let _ = std::fs::create_dir_all(format!("{}/replays", dir));
+        let lp = mcx::par::LAST_PANIC.lock().unwrap_or_else(|e| e.into_inner()).clone();
+        let (msg, op, input, len) = lp.unwrap_or_default();
+        let v = json!({"property": id, "sub": "uncaught-panic", "case": {"op": op, "input_hex": refmodel::hex(&input), "input_len": len}, "detail": msg});
+        let _ = std::fs::write(&path, v.to_string());
+        r.fail("uncaught-panic", None, v["case"].clone(), format!("panic while exercising the subject: {}", msg));
+        std::process::exit(r.finish().max(1));
+    }
+    std::process::exit(r.finish());
+}
+
+fn dispatch(id: &str, r: &Report) {
+    match id {
+        "C01" => c01::run(r),
+        "C02" => c02::run(r),
+        "C03" => c03::run(r),
+        "C04" => c04::run(r),
+        "C05" => c05::run(r),
+        "C06" => c06::run(r),
+        "C07" => c07::run(r),
+        "C11" => c11::run(r),
+        "C12" => c12::run(r),
+        "C13" => c13::run(r),
+        "C14" => c14::run(r),
+        "C15" => c15::run(r),
+        "C16" => c16::run(r),
+        "C19" => c19::run(r),
         _ => {
             eprintln!("unknown property {}", id);
             std::process::exit(2)
         }
     }
-    std::process::exit(r.finish());
 }
